@@ -59,6 +59,7 @@ def dispatch (l : Line) : List Verdict :=
   | "cookiedec" => handleCookieDec l
   | "tamper09" => handleTamper09 l
   | "relogin09" => handleRelogin09 l
+  | "keylen09" => handleKeyLen09 l
   | "concurrent09" => handleConcurrent09 l
   | "outscan" => handleOutScan l
   | "url04" => handleUrl04 l
